@@ -216,6 +216,10 @@ fn validate_command_part(command: &str) -> Result<(), CommandErrorKind> {
         return Err(CommandErrorKind::Empty);
     }
 
+    if let Some(c) = command.chars().next().filter(|c| !is_valid_first_command_char(*c)) {
+        return Err(CommandErrorKind::InvalidCharacter(0, c));
+    }
+
     if let Some((i, c)) = command
         .char_indices()
         .find(|(_, c)| !is_valid_command_char(*c))
@@ -239,6 +243,11 @@ fn validate_argument(argument: &[u8]) -> Result<(), CommandErrorKind> {
 /// Commands can consist of alphabetic chars and underscores
 fn is_valid_command_char(c: char) -> bool {
     c.is_ascii_alphabetic() || c == '_'
+}
+
+/// The first character of a command must be a letter, MPD rejects anything else
+fn is_valid_first_command_char(c: char) -> bool {
+    c.is_ascii_alphabetic()
 }
 
 /// Returns `true` if the given command would start or end a command list.
